@@ -22,6 +22,7 @@ import (
 	"sort"
 	"strings"
 	"sync"
+	"sync/atomic"
 	"time"
 
 	"verifharness/batchgen"
@@ -188,7 +189,13 @@ func twinOf(mode string, rq request) (request, bool) {
 }
 
 func do(client *http.Client, url string, rq request) (int, []byte, error) {
-	req, err := http.NewRequest(rq.method, url, bytes.NewReader(rq.body))
+	var body io.Reader = bytes.NewReader(rq.body)
+	if len(rq.body)%5 == 2 {
+		// streamed body: no Content-Length, Transfer-Encoding: chunked (what a client sends when it
+		// pipes the parameters through); same bytes, same answer
+		body = struct{ io.Reader }{bytes.NewReader(rq.body)}
+	}
+	req, err := http.NewRequest(rq.method, url, body)
 	if err != nil {
 		return 0, nil, err
 	}
@@ -199,12 +206,19 @@ func do(client *http.Client, url string, rq request) (int, []byte, error) {
 	}
 	resp, err := client.Do(req)
 	if err != nil {
+		if ne, ok := err.(interface{ Timeout() bool }); ok && ne.Timeout() {
+			atomic.AddInt32(&hangs, 1)
+		}
 		return 0, nil, err
 	}
 	defer resp.Body.Close()
-	body, err := io.ReadAll(resp.Body)
-	return resp.StatusCode, body, err
+	rb, err := io.ReadAll(resp.Body)
+	return resp.StatusCode, rb, err
 }
+
+// hangs counts requests that got no answer within the client's time limit; after two of them the
+// run stops sending (each further one would wait as long) and reports what it has.
+var hangs int32
 
 func classify(mode string, ps *prover.ProvingSystem, rq request, status int, body []byte, err error) string {
 	if err != nil {
@@ -294,7 +308,7 @@ func main() {
 	slow := flag.Float64("slow", 0, "additionally send one request whose body upload pauses for this many seconds")
 	flag.Parse()
 	g := gen.New(*seed)
-	client := &http.Client{Timeout: 600 * time.Second}
+	client := &http.Client{Timeout: 90 * time.Second}
 	emit := func(line, res string) { fmt.Fprintf(gen.Out, "%s\t=>\t%s\n", line, res) }
 	for _, mode := range strings.Split(*modesFlag, ",") {
 		var ps *prover.ProvingSystem
@@ -323,7 +337,7 @@ func main() {
 		}
 		var tally []string
 		round := 0
-		for done := 0; done < *n; {
+		for done := 0; done < *n && atomic.LoadInt32(&hangs) < 2; {
 			k := *conc
 			if k > *n-done {
 				k = *n - done
@@ -411,6 +425,9 @@ func main() {
 				// two answers alone agree with each other (the text is a function of the request) the
 				// answer given under concurrency must be that text too.
 				for i := range reqs {
+					if atomic.LoadInt32(&hangs) >= 2 {
+						break // the server no longer answers in time: every further request would wait as long
+					}
 					if statuses[i] != 400 && statuses[i] != 500 {
 						continue
 					}
@@ -468,7 +485,7 @@ func main() {
 		// quiescence: the deferred gauge decrement may lag behind the client's receipt
 		var totals map[string]int
 		gauge := -1
-		for i := 0; i < 3000; i++ {
+		for i := 0; i < 3000 && (atomic.LoadInt32(&hangs) == 0 || i < 50); i++ {
 			totals, gauge, _ = scrape(client, murl)
 			if gauge == 0 {
 				sum := 0
@@ -492,8 +509,18 @@ func main() {
 		}
 		parts = append(parts, fmt.Sprintf("inflight=%d", gauge))
 		emit("metrics\t"+strings.Join(tally, ","), strings.Join(parts, ";"))
+		// stop the instance; handlers that never return (requests left unanswered above) would make
+		// the graceful stop wait for ever, so the wait is bounded here and the process exit ends them
 		inst.RequestStop()
-		inst.AwaitStop()
+		stopped := make(chan struct{})
+		go func() { inst.AwaitStop(); close(stopped) }()
+		select {
+		case <-stopped:
+		case <-time.After(30 * time.Second):
+			if atomic.LoadInt32(&hangs) == 0 {
+				emit("alive", "server did not stop within 30 s of RequestStop although every request had been answered")
+			}
+		}
 	}
 	keys := make([]string, 0, len(stat))
 	for k := range stat {
